@@ -496,7 +496,7 @@ def edit_structured(rng, text, history=()):
 # ---------------------------------------------------------------------------
 # elementary single-line edits (systematic sweeps over snippet x line x edit)
 # ---------------------------------------------------------------------------
-ELEMENTARY = ['strip-backslash', 'add-backslash', 'blank-before', 'delete', 'duplicate', 'indent4', 'dedent4', 'ff-start', 'append-stmt', 'comment-out',
+ELEMENTARY = ['header-to-stmt', 'stray-dec', 'stmt-to-header', 'strip-backslash', 'add-backslash', 'blank-before', 'delete', 'duplicate', 'indent4', 'dedent4', 'ff-start', 'append-stmt', 'comment-out',
               'indent1', 'join-next', 'ff-line-before', 'split']
 
 
@@ -523,6 +523,8 @@ def elementary(text, i, kind):
     if nl != '\n':
         # edits in a CR / CRLF file use that file's line ending
         return _elementary_nl(lines, i, kind, pad, nl)
+    if kind in ('header-to-stmt', 'stray-dec', 'stmt-to-header'):
+        return _elementary_nl(lines, i, kind, pad, '\n' if ln.endswith('\n') else '')
     if kind == 'strip-backslash':
         body = ln[:-1] if ln.endswith('\n') else ln
         lines[i] = (body.rstrip(' \t')[:-1].rstrip(' ') if body.rstrip(' \t').endswith('\\') else body + ' #') + ('\n' if ln.endswith('\n') else '')
@@ -562,8 +564,16 @@ def elementary(text, i, kind):
 
 def _elementary_nl(lines, i, kind, pad, nl):
     ln = lines[i]
-    body = ln[:-len(nl)]
-    if kind == 'strip-backslash':
+    body = ln[:-len(nl)] if nl else ln
+    if kind == 'header-to-stmt':
+        # a block header becomes an ordinary statement of the same indentation: the lines of its block
+        # join the enclosing (or preceding) block without moving
+        lines[i] = pad + ('moved = 1' if body.rstrip().endswith(':') else 'def h%d():' % i) + nl
+    elif kind == 'stmt-to-header':
+        lines[i] = pad + ('if c%d:' % i if not body.rstrip().endswith(':') else 'y%d = 2' % i) + nl
+    elif kind == 'stray-dec':
+        lines[i:i] = ['@dec' + (nl or '\n')]           # at column 0, wherever the line is
+    elif kind == 'strip-backslash':
         lines[i] = (body.rstrip(' \t')[:-1].rstrip(' ') if body.rstrip(' \t').endswith('\\') else body + ' #') + nl
     elif kind == 'add-backslash':
         lines[i] = body + ' \\' + nl
